@@ -3,6 +3,8 @@ import GoguVerif.Spec.C05
 import GoguVerif.Spec.C06
 import GoguVerif.Model.Queue
 import GoguVerif.Model.Stack
+import GoguVerif.Model.LQueue
+import GoguVerif.Model.LStack
 /-! Driver wiring for C05 / C06: parse protocol lines, step model and monitor. -/
 namespace GoguVerif.Kinds
 open GoguVerif
@@ -51,19 +53,27 @@ def queueKind : Kind where
         nontrivial := st.emptied && s'.length ≥ 1
         tags := [l.op] }
 
-/-- linked queue: spec monitor (the pointer-level model is added in `Kinds/Linked.lean`) -/
-def lqueueSpecOnly : Kind where
-  σ := St
+structure LSt where
+  spec : List Int
+  model : Model.LQueue.St Int
+  maxLen : Nat := 0
+  emptied : Bool := false
+
+/-- linked queue: FIFO monitor + the model of `lqueue.go` (counter + `list.DList` at sequence level) -/
+def lqueueKind : Kind where
+  σ := LSt
   init := fun ps => match ps with
-    | [.int v] => some { spec := [v], model := [] }
+    | [.int v] => some { spec := [v], model := Model.LQueue.new v }
     | _ => none
   step := fun st l =>
     match parseOp l with
     | none => { st := st, bad := some s!"bad queue op {l.op}" }
     | some op =>
       let (s', so) := Spec.C05.step st.spec op
+      let (m', mo) := Model.LQueue.step st.model op
       let emptied := st.emptied || (st.maxLen ≥ 2 && s'.isEmpty)
-      { st := { st with spec := s', maxLen := max st.maxLen s'.length, emptied := emptied }
+      { st := { spec := s', model := m', maxLen := max st.maxLen s'.length, emptied := emptied }
+        model := some (renderOut true mo)
         spec := if renderOut true so == l.res then none else some s!"fifo:{l.op}"
         nontrivial := st.emptied && s'.length ≥ 1
         tags := [l.op] }
@@ -115,6 +125,7 @@ implementation's state), patched spec (known findings). -/
 structure LSt where
   spec : List Int
   specAlive : Bool := true
+  model : Model.LStack.St Int
   patched : Spec.C06.Patched.St Int
   maxLen : Nat := 0
   emptied : Bool := false
@@ -123,12 +134,7 @@ structure LSt where
 LIFO spec, or the spec patched with exactly the listed known findings.  An answer that contradicts
 the pure spec is attributed to a known finding only if the patched spec predicts it; an answer
 neither predicts is a violation. -/
-def lstackMonitor : Kind where
-  σ := LSt
-  init := fun ps => match ps with
-    | [.int v] => some { spec := [v], patched := Spec.C06.Patched.ofList [v] }
-    | _ => none
-  step := fun st l =>
+def lstackMonitorStep (st : LSt) (l : Line) : Step LSt :=
     match parseOp l with
     | none => { st := st, bad := some s!"bad stack op {l.op}" }
     | some op =>
@@ -157,6 +163,21 @@ def lstackMonitor : Kind where
           { st := { base with patched := p', specAlive := agreeAfter }, known := some sig, tags := [l.op] }
         else
           { st := base, spec := some s!"lifo:{l.op}", tags := [l.op] }
+
+/-- linked stack: the monitor above + the model of `lstack.go` (counter + `list.DList` at sequence
+level) run beside it for the correspondence. -/
+def lstackKind : Kind where
+  σ := LSt
+  init := fun ps => match ps with
+    | [.int v] => some { spec := [v], model := Model.LStack.new v, patched := Spec.C06.Patched.ofList [v] }
+    | _ => none
+  step := fun st l =>
+    let r := lstackMonitorStep st l
+    match parseOp l with
+    | none => r
+    | some op =>
+      let (m', mo) := Model.LStack.step st.model op
+      { r with st := { r.st with model := m' }, model := some (renderOut mo) }
 
 end S
 end GoguVerif.Kinds
